@@ -649,6 +649,9 @@ pub fn supervise(
                 e.samples.extend(st.samples.into_iter().take(1));
             }
             for f in st.failures {
+                if e.failures.len() >= 4 {
+                    break; // a handful of (shrunk) counterexamples per sub check is enough
+                }
                 let p = write_replay(&f);
                 summary
                     .violations
